@@ -58,7 +58,9 @@ impl RefDualAvg {
     fn advance(&mut self, accept: f64, target: f64) {
         let w = 1.0 / (self.count as f64 + self.t0);
         self.hbar = (1.0 - w) * self.hbar + w * (target - accept);
-        self.log_step = (self.mu - self.hbar * (self.count as f64).sqrt() / self.gamma).min(self.max.ln());
+        // clamped iterate: not above max_step_size, and not below the smallest positive normal number (a
+        // positive finite step size whatever the history)
+        self.log_step = (self.mu - self.hbar * (self.count as f64).sqrt() / self.gamma).min(self.max.ln()).max(f64::MIN_POSITIVE.ln());
         let mk = (self.count as f64).powf(-self.k);
         self.adapted = mk * self.log_step + (1.0 - mk) * self.adapted;
         self.count += 1;
